@@ -324,9 +324,9 @@ pub fn run(args: &Args) -> i32 {
 
     // ---- random stratum
     let n = match prop {
-        "C14" => args.scale(320_000, 6_400_000),
-        "C02" => args.scale(160_000, 2_400_000),
-        _ => args.scale(96_000, 1_600_000),
+        "C14" => args.scale(1_200_000, 16_000_000),
+        "C02" => args.scale(640_000, 8_000_000),
+        _ => args.scale(320_000, 4_000_000),
     };
     for i in 0..n {
         if !args.mine(i) {
